@@ -522,7 +522,7 @@ func genForm(r *rand.Rand, used map[string]bool) frm {
 func genModel(r *rand.Rand) model {
 	var m model
 	seen := map[[3]string]bool{}
-	for i, n := 0, r.Intn(5); i < n; i++ {
+	for i, n := 0, []int{0, 1, 1, 2, 2, 3, 4, 5, 6, 9, 17}[r.Intn(11)]; i < n; i++ {
 		id := ident{txt(r, cats), txt(r, typs), txt(r, langs), txt(r, names)}
 		if len(m.Idents) > 0 && r.Intn(2) == 0 {
 			// share a prefix of the sort key with an earlier identity
@@ -539,7 +539,7 @@ func genModel(r *rand.Rand) model {
 		seen[k] = true
 		m.Idents = append(m.Idents, id)
 	}
-	for i, n := 0, r.Intn(9); i < n; i++ {
+	for i, n := 0, []int{0, 1, 2, 3, 4, 5, 6, 7, 8, 17, 33, 70}[r.Intn(12)]; i < n; i++ {
 		m.Feats = append(m.Feats, txt(r, feats))
 	}
 	used := map[string]bool{}
